@@ -12,7 +12,7 @@ from lib.framework import enc, time_limit
 # encodings in which ASCII is represented as ASCII (hypothesis `AsciiRep` of the theorems)
 ASCII_TARGETS = ['ascii', 'latin-1', 'koi8-r', 'iso-8859-7', 'cp1251', 'cp437', 'utf-8', 'iso-8859-15', 'cp1252']
 
-KEPT = ['S', 'IDENT', 'DIMENSION', 'PERCENTAGE', 'NUMBER', 'HASH', 'COMMENT', 'STRING', 'INVALID', 'ATKEYWORD', 'INCLUDES',
+KEPT = ['S', 'URI', 'UNICODE-RANGE', 'IDENT', 'DIMENSION', 'PERCENTAGE', 'NUMBER', 'HASH', 'COMMENT', 'STRING', 'INVALID', 'ATKEYWORD', 'INCLUDES',
         'DASHMATCH', 'PREFIXMATCH', 'SUFFIXMATCH', 'SUBSTRINGMATCH', 'CDO', 'CDC']
 
 NA = ['\xe4', '\u20ac', '\u0414', '\u03b4', '\U0001F600', '\x80', '\u0100', '\xa0', '\u0550', '\u0524', '\u524c', '\u755c',
